@@ -37,9 +37,10 @@ MANIFEST = {
                     "bytes, _addPKCS1Padding, DigestInfo prefixes, _raw_pkcs1_verify/sign, MGF1, EMSA_PSS_encode/verify, RSASSA_PSS_sign/"
                     "verify, sign, verify, hashAndSign/Verify) and translate/gen_cryptomath.py the number<->bytes helpers of cryptomath.py/"
                     "compat.py statement by statement into Lean (Tls.RsaPad.Gen, Tls.Cryptomath.Gen over the Python-runtime model); proved "
-                    "equal to the hand model for all inputs: cryptomath helpers, raw public operation, block type 1 padding, prefix table "
-                    "and prefix functions, _raw_pkcs1_verify, verify for pkcs1 (gen_pkcs1_verify_iff_canonical), MGF1; the PSS encode/"
-                    "verify, sign and hashAnd* functions are tied on kernel-evaluated input families only (gen_*_vectors_partial)",
+                    "equal to the hand model for all inputs (gen_*_eq): cryptomath helpers, raw public/private operation on bytes, block type 1 "
+            "padding, prefix table and prefix functions, _raw_pkcs1_verify/sign, MGF1, EMSA_PSS_encode/verify, RSASSA_PSS_sign/verify, "
+            "sign, verify, hashAndSign/Verify (corollaries gen_pkcs1_verify_iff_canonical, gen_pss_verify_accept_iff, "
+            "gen_pss_sign_then_verify); block type 2 padding: shape for every outcome and the exact condition for returning",
     "note": "Trusted: Lean kernel (propext, Classical.choice, Quot.sound), hashlib, python-ecdsa (ECDSA/EdDSA/NIST+brainpool ECDH "
             "are external: only round trips, openssl cross-checks and mutation search, no proof), the openssl CLI as oracle. "
             "The X25519/X448 ladder model is an executable transliteration validated by correspondence and RFC 7748 vectors; "
